@@ -329,3 +329,85 @@ impl Scenario for Flood {
         cx.verdict()
     }
 }
+
+/// More than 256 complete pages inside one pixel transfer (tiny custom size: one chunk per
+/// page), then the count, PixelsComplete and flips: long runs that random bursts never reach.
+pub struct ManyPages {
+    pub mode: Mode,
+}
+
+impl Scenario for ManyPages {
+    fn name(&self) -> &'static str {
+        match self.mode {
+            Mode::NoPanic => "c12-many-pages",
+            Mode::Refinement => "c13-many-pages",
+        }
+    }
+    fn property(&self) -> &'static str {
+        match self.mode {
+            Mode::NoPanic => "C12",
+            Mode::Refinement => "C13",
+        }
+    }
+    fn runs(&self, tier: Tier) -> u64 {
+        match tier {
+            Tier::Quick => 64,
+            Tier::Thorough => 4_000,
+        }
+    }
+    fn describe(&self) -> &'static str {
+        "one sign configured with a tiny custom size (one 16-byte chunk per page), one pixel transfer of 200-700 complete pages (a few damaged ones mixed in), count, PixelsComplete, queries and flips"
+    }
+    fn run(&self, cx: &Cx) -> Result<(), Violation> {
+        let a = gens::address(cx);
+        let world = World::new(cx, self.property(), OnPanic::Fail, &[(a, gens::flip_style(cx))], self.mode == Mode::Refinement);
+        world.lock().track_states = false;
+        let deliver = |m: Message<'static>| {
+            let _ = world.lock().deliver(&m);
+        };
+        // 12x8 Horizon or 12x8 Max3000 with an unknown id: 4 + 12 = 16 bytes per page
+        let mut block = vec![0u8; 16];
+        if cx.chance(1, 2) {
+            block[0] = 0x08;
+            block[1] = 0x99;
+            block[5] = 8;
+            block[7] = 12;
+        } else {
+            block[0] = 0x04;
+            block[1] = 0x99;
+            block[4] = 8;
+            block[5] = 12;
+        }
+        deliver(Message::RequestOperation(a, Operation::ReceiveConfig));
+        deliver(Message::SendData(Offset(0), gens::data(block)));
+        deliver(Message::DataChunksSent(ChunkCount(1)));
+        deliver(Message::RequestOperation(a, Operation::ReceivePixels));
+        let n = 200 + cx.draw(500);
+        let mut sent = 0u32;
+        for i in 0..n {
+            if cx.failed() {
+                break;
+            }
+            let len = if cx.chance(1, 50) { gens::chunk_len(cx) } else { 16 };
+            let mut bytes = cx.bytes(len);
+            if !bytes.is_empty() {
+                bytes[0] = i as u8;
+            }
+            deliver(Message::SendData(Offset(0), gens::data(bytes)));
+            sent += 1;
+        }
+        cx.event("pages", &n);
+        if n > 256 {
+            cx.probe("more_than_256_pages_in_one_transfer");
+        }
+        deliver(Message::DataChunksSent(ChunkCount(sent as u16)));
+        deliver(Message::QueryState(a));
+        deliver(Message::PixelsComplete(a));
+        deliver(Message::QueryState(a));
+        deliver(Message::RequestOperation(a, Operation::ShowLoadedPage));
+        deliver(Message::QueryState(a));
+        deliver(Message::QueryState(a));
+        cx.set_nontrivial();
+        cx.verdict()
+    }
+}
